@@ -189,3 +189,66 @@ def deref_self_aliases(fn):
         for ch in _ast.iter_child_nodes(node):
             ch._parent = node
     return new
+
+
+def inline_straightline_calls(fn, funcs):
+    """copy of `fn` in which every call `g(a, b, ...)` of a module-level function g of `funcs` ({name: FunctionDef}) whose body is
+    straight-line scalar code (assignments, augmented assignments, one final return; no other call of g's module, no control flow) is
+    replaced by g's returned expression with the parameters substituted by the (side-effect free) arguments."""
+    import ast as _ast
+    import copy as _copy
+
+    def as_expr(g):
+        params = [a.arg for a in g.args.args]
+        if g.args.vararg or g.args.kwarg or g.args.kwonlyargs:
+            return None
+        env = {}
+
+        class S(_ast.NodeTransformer):
+            def visit_Name(self, n):
+                if isinstance(n.ctx, _ast.Load) and n.id in env:
+                    return _copy.deepcopy(env[n.id])
+                return n
+        body = [s_ for s_ in g.body if not isinstance(s_, _ast.Pass) and not (isinstance(s_, _ast.Expr) and isinstance(s_.value, _ast.Constant))]
+        if not body or not isinstance(body[-1], _ast.Return) or body[-1].value is None:
+            return None
+        for st in body[:-1]:
+            if isinstance(st, _ast.Assign) and len(st.targets) == 1 and isinstance(st.targets[0], _ast.Name):
+                env[st.targets[0].id] = S().visit(_copy.deepcopy(st.value))
+            elif isinstance(st, _ast.AugAssign) and isinstance(st.target, _ast.Name) and st.target.id in env:
+                env[st.target.id] = _ast.BinOp(left=env[st.target.id], op=st.op, right=S().visit(_copy.deepcopy(st.value)))
+            else:
+                return None
+        return params, S().visit(_copy.deepcopy(body[-1].value))
+    table = {}
+    for name, g in funcs.items():
+        if g is fn:
+            continue
+        r = as_expr(g)
+        if r is not None:
+            table[name] = r
+    if not table or not any(isinstance(n, _ast.Call) and isinstance(n.func, _ast.Name) and n.func.id in table for n in _ast.walk(fn)):
+        return fn
+    new = _copy.deepcopy(fn)
+
+    class R(_ast.NodeTransformer):
+        def visit_Call(self, n):
+            n = self.generic_visit(n)
+            if isinstance(n.func, _ast.Name) and n.func.id in table and not n.keywords:
+                params, expr = table[n.func.id]
+                if len(params) == len(n.args) and not any(isinstance(c_, _ast.Call) for a_ in n.args for c_ in _ast.walk(a_)):
+                    m = dict(zip(params, n.args))
+
+                    class P(_ast.NodeTransformer):
+                        def visit_Name(self, x):
+                            if isinstance(x.ctx, _ast.Load) and x.id in m:
+                                return _copy.deepcopy(m[x.id])
+                            return x
+                    return _ast.copy_location(P().visit(_copy.deepcopy(expr)), n)
+            return n
+    new = R().visit(new)
+    _ast.fix_missing_locations(new)
+    for node in _ast.walk(new):
+        for ch in _ast.iter_child_nodes(node):
+            ch._parent = node
+    return new
